@@ -150,6 +150,12 @@ func c11DownstreamCases(rnd *rand.Rand, thorough bool) []hostileCase {
 		c.DeclArr = 1048576
 	}
 	add("nested-then-valid", append(rep("*1\r\n", 40), resp.CmdS("PING")...), false)
+	// millions of tokens that carry no request: none of them may cost a stack frame or memory that is kept
+	for _, tok := range []string{"\r\n", "*-1\r\n", "*0\r\n", " \r\n"} {
+		for _, d := range []int{1000, 1000000, 6000000} {
+			add(fmt.Sprintf("token-run-%s-x%d", strconv.Quote(tok), d), append(rep(tok, d), resp.CmdS("PING")...), false)
+		}
+	}
 	// nesting where every level first carries a sibling element (depth accounting must survive null / empty / scalar siblings)
 	for _, sib := range []string{"*-1\r\n", "*0\r\n", "$-1\r\n", ":1\r\n", "*1\r\n:1\r\n"} {
 		for _, d := range []int{1000, 1000000, 3000000} {
@@ -170,6 +176,7 @@ func c11BackendCases(rnd *rand.Rand, thorough bool) []hostileCase {
 		for name, raw := range map[string]string{
 			"bad-type-byte": "!oops\r\n", "negative-bulk": "$-7\r\n", "negative-array": "*-9\r\n", "huge-bulk": "$99999999999\r\n", "huge-array": "*99999999\r\n",
 			"no-crlf": "+OK\n", "int-garbage": ":12x\r\n", "empty-line": "\r\n", "nested-bomb": string(rep("*1\r\n", 200000)), "null-bulk": "$-1\r\n", "null-array": "*-1\r\n",
+			"empty-lines-bomb": string(rep("\r\n", 4000000)),
 			"integer": ":7\r\n", "array-of-int": "*2\r\n:1\r\n:2\r\n", "empty-array": "*0\r\n", "error": "-ERR whatever\r\n", "empty-error": "-\r\n",
 			// replies that look like the beginning of a compressed value (magic, algorithm byte) and stop there
 			"cps-header-3-bytes": "$3\r\n(P$\r\n", "cps-header-4-bytes": "$4\r\n(P$\x00\r\n", "cps-header-5-bytes": "$5\r\n(P$\x00\r\r\n", "cps-header-only": "$6\r\n(P$\x00\r\n\r\n",
